@@ -20,6 +20,29 @@ func (e *Engine) chanContent(st *State, ch PtrV, where string) (*Obj, *ChanConte
 	return a.Obj, cc
 }
 
+type chanAlt struct {
+	g  smt.Term
+	o  *Obj
+	cc *ChanContent
+}
+
+// chanAlts lists the guarded channel targets of a channel value (nil targets have o == nil).
+func (e *Engine) chanAlts(st *State, ch PtrV) []chanAlt {
+	var out []chanAlt
+	for _, a := range ch.Alts {
+		if a.G.IsFalse() {
+			continue
+		}
+		if a.Obj == nil {
+			out = append(out, chanAlt{g: a.G})
+			continue
+		}
+		cc, _ := st.Heap[a.Obj].(*ChanContent)
+		out = append(out, chanAlt{g: a.G, o: a.Obj, cc: cc})
+	}
+	return out
+}
+
 func (e *Engine) sharedChan(st *State, ch PtrV) bool {
 	if st.Th == nil {
 		return false
@@ -28,25 +51,62 @@ func (e *Engine) sharedChan(st *State, ch PtrV) bool {
 	return ok && a.Obj != nil && a.Obj.Thread != st.Th.ID
 }
 
-// Sequential semantics: the FIFO has a concrete fill. An operation that would block forever in a
-// single-threaded run is reported (noblock).
+// push appends v under guard g (the caller established room).
+func (e *Engine) chanPush(cc *ChanContent, g smt.Term, v Value) *ChanContent {
+	c := e.C
+	nc := &ChanContent{Cap: cc.Cap, Closed: cc.Closed, Count: c.Ite(g, c.Add(cc.Count, c.BV(1, 32)), cc.Count)}
+	for i := range cc.Slots {
+		at := c.And(g, c.Eq(cc.Count, c.BV(uint64(i), 32)))
+		nc.Slots = append(nc.Slots, e.Merge(at, v, cc.Slots[i]))
+	}
+	return nc
+}
+
+// pop removes the oldest element under guard g and returns it.
+func (e *Engine) chanPop(cc *ChanContent, g smt.Term, et types.Type) (*ChanContent, Value) {
+	c := e.C
+	var v Value
+	if cc.Cap > 0 {
+		v = cc.Slots[0]
+	} else {
+		v = e.zero(et)
+	}
+	nc := &ChanContent{Cap: cc.Cap, Closed: cc.Closed, Count: c.Ite(g, c.Sub(cc.Count, c.BV(1, 32)), cc.Count)}
+	for i := range cc.Slots {
+		var next Value
+		if i+1 < len(cc.Slots) {
+			next = cc.Slots[i+1]
+		} else {
+			next = e.zero(et)
+		}
+		nc.Slots = append(nc.Slots, e.Merge(g, next, cc.Slots[i]))
+	}
+	return nc, v
+}
+
+func chanElem(t types.Type) types.Type {
+	return t.Underlying().(*types.Chan).Elem()
+}
+
+// Sequential semantics: an operation that cannot proceed would block forever in a
+// single-threaded run; that is reported (noblock) and execution continues as if it proceeded.
 func (e *Engine) chanSend(st *State, ch PtrV, v Value, where string) {
+	c := e.C
 	if e.sharedChan(st, ch) {
 		e.chanEvent(st, EvChanSend, ch, where)
 		return
 	}
-	o, cc := e.chanContent(st, ch, where)
-	if o == nil {
-		e.fail(st, e.C.True, "noblock:send-on-nil-channel", where)
-		return
+	for _, al := range e.chanAlts(st, ch) {
+		if al.o == nil {
+			e.fail(st, al.g, "noblock:send-on-nil-channel", where)
+			continue
+		}
+		cc := al.cc
+		e.fail(st, c.And(al.g, cc.Closed), "nopanic:send-on-closed-channel", where)
+		room := c.Ult(cc.Count, c.BV(uint64(cc.Cap), 32))
+		e.fail(st, c.And(al.g, c.Not(room)), "noblock:send-would-block-forever", where)
+		st.Heap[al.o] = e.chanPush(cc, c.And(al.g, room), v)
 	}
-	e.fail(st, cc.Closed, "nopanic:send-on-closed-channel", where)
-	if len(cc.Buf) >= cc.Cap {
-		e.fail(st, e.C.True, "noblock:send-would-block-forever", where)
-		return
-	}
-	nc := &ChanContent{Cap: cc.Cap, Closed: cc.Closed, Buf: append(append([]Value{}, cc.Buf...), v)}
-	st.Heap[o] = nc
 }
 
 func (e *Engine) chanRecv(st *State, ch PtrV, commaOk bool, typ types.Type, where string) Value {
@@ -64,24 +124,25 @@ func (e *Engine) chanRecv(st *State, ch PtrV, commaOk bool, typ types.Type, wher
 		}
 		return e.zero(et)
 	}
-	o, cc := e.chanContent(st, ch, where)
-	if o == nil {
-		e.fail(st, c.True, "noblock:receive-on-nil-channel", where)
-		return e.zero(typ)
-	}
-	if len(cc.Buf) > 0 {
-		v := cc.Buf[0]
-		st.Heap[o] = &ChanContent{Cap: cc.Cap, Closed: cc.Closed, Buf: append([]Value{}, cc.Buf[1:]...)}
-		if commaOk {
-			return TupleV{v, BoolV{c.True}}
+	res := e.zero(et)
+	okT := c.False
+	for _, al := range e.chanAlts(st, ch) {
+		if al.o == nil {
+			e.fail(st, al.g, "noblock:receive-on-nil-channel", where)
+			continue
 		}
-		return v
+		cc := al.cc
+		has := c.Ne(cc.Count, c.BV(0, 32))
+		e.fail(st, c.And(al.g, c.Not(has), c.Not(cc.Closed)), "noblock:receive-would-block-forever", where)
+		nc, v := e.chanPop(cc, c.And(al.g, has), et)
+		st.Heap[al.o] = nc
+		res = e.Merge(c.And(al.g, has), v, res)
+		okT = c.Or(okT, c.And(al.g, has))
 	}
-	e.fail(st, c.Not(cc.Closed), "noblock:receive-would-block-forever", where)
 	if commaOk {
-		return TupleV{e.zero(et), BoolV{c.False}}
+		return TupleV{res, BoolV{okT}}
 	}
-	return e.zero(et)
+	return res
 }
 
 func (e *Engine) chanClose(st *State, ch PtrV, where string) {
@@ -89,25 +150,28 @@ func (e *Engine) chanClose(st *State, ch PtrV, where string) {
 		e.chanEvent(st, EvChanClose, ch, where)
 		return
 	}
-	o, cc := e.chanContent(st, ch, where)
-	if o == nil {
-		e.fail(st, e.C.True, "nopanic:close-of-nil-channel", where)
-		return
+	c := e.C
+	for _, al := range e.chanAlts(st, ch) {
+		if al.o == nil {
+			e.fail(st, al.g, "nopanic:close-of-nil-channel", where)
+			continue
+		}
+		cc := al.cc
+		e.fail(st, c.And(al.g, cc.Closed), "nopanic:close-of-closed-channel", where)
+		st.Heap[al.o] = &ChanContent{Cap: cc.Cap, Closed: c.Or(cc.Closed, al.g), Count: cc.Count, Slots: cc.Slots}
 	}
-	e.fail(st, cc.Closed, "nopanic:close-of-closed-channel", where)
-	st.Heap[o] = &ChanContent{Cap: cc.Cap, Closed: e.C.True, Buf: cc.Buf}
 }
 
-// selectOp: supported forms: non-blocking select (default) and blocking select, evaluated
-// sequentially: the first ready case in source order is taken (Go picks pseudo-randomly among
-// ready cases; harnesses that depend on the choice must not use this path).
+// selectOp. Thread mode supports the single-case non-blocking form on shared channels (events).
+// Sequential mode: cases are examined in source order and the first ready one is taken (Go picks
+// pseudo-randomly among several ready cases; harnesses must not depend on that choice). A nil
+// channel case is never ready. A blocking select with no ready case is reported (noblock).
 func (e *Engine) selectOp(fr *frame, st *State, regs map[ssa.Value]Value, x *ssa.Select, where string) Value {
 	c := e.C
-	// result tuple: (index int, recvOk bool, r_0 ... r_{n-1}) with r_i for receive states
-	nrecv := 0
+	var recvT []types.Type
 	for _, s := range x.States {
 		if s.Dir == types.RecvOnly {
-			nrecv++
+			recvT = append(recvT, chanElem(s.Chan.Type()))
 		}
 	}
 	mk := func(idx smt.Term, ok smt.Term, recvVals []Value) Value {
@@ -117,14 +181,11 @@ func (e *Engine) selectOp(fr *frame, st *State, regs map[ssa.Value]Value, x *ssa
 	}
 	zeros := func() []Value {
 		var out []Value
-		for _, s := range x.States {
-			if s.Dir == types.RecvOnly {
-				out = append(out, e.zero(s.Chan.Type().Underlying().(*types.Chan).Elem()))
-			}
+		for _, t := range recvT {
+			out = append(out, e.zero(t))
 		}
 		return out
 	}
-	// thread mode, shared channels: only the single-case non-blocking form
 	if len(x.States) == 1 && !x.Blocking {
 		s := x.States[0]
 		ch := e.operand(fr, regs, s.Chan).(PtrV)
@@ -138,39 +199,60 @@ func (e *Engine) selectOp(fr *frame, st *State, regs map[ssa.Value]Value, x *ssa
 			return mk(idx, ev.Res, zeros())
 		}
 	}
-	// sequential evaluation over concrete fills
 	rv := zeros()
+	idx := c.BV(^uint64(0), 64)
+	okT := c.False
+	taken := c.False
 	ri := 0
 	for i, s := range x.States {
 		ch := e.operand(fr, regs, s.Chan).(PtrV)
 		if e.sharedChan(st, ch) {
 			panic(e.unsupported("multi-case select on a channel shared between threads at " + where))
 		}
-		o, cc := e.chanContent(st, ch, where)
+		alts := e.chanAlts(st, ch)
 		if s.Dir == types.SendOnly {
-			if o != nil && len(cc.Buf) < cc.Cap && cc.Closed.IsFalse() {
-				v := e.operand(fr, regs, s.Send)
-				st.Heap[o] = &ChanContent{Cap: cc.Cap, Closed: cc.Closed, Buf: append(append([]Value{}, cc.Buf...), v)}
-				return mk(c.BV(uint64(i), 64), c.False, rv)
+			var v Value
+			for _, al := range alts {
+				if al.o == nil {
+					continue
+				}
+				cc := al.cc
+				ready := c.And(al.g, c.Ult(cc.Count, c.BV(uint64(cc.Cap), 32)), c.Not(cc.Closed))
+				take := c.And(ready, c.Not(taken))
+				if take.IsFalse() {
+					continue
+				}
+				if v == nil {
+					v = e.operand(fr, regs, s.Send)
+				}
+				st.Heap[al.o] = e.chanPush(cc, take, v)
+				idx = c.Ite(take, c.BV(uint64(i), 64), idx)
+				taken = c.Or(taken, take)
 			}
 			continue
 		}
-		if o != nil && len(cc.Buf) > 0 {
-			rv[ri] = cc.Buf[0]
-			st.Heap[o] = &ChanContent{Cap: cc.Cap, Closed: cc.Closed, Buf: append([]Value{}, cc.Buf[1:]...)}
-			return mk(c.BV(uint64(i), 64), c.True, rv)
-		}
-		if o != nil && cc.Closed.IsTrue() {
-			return mk(c.BV(uint64(i), 64), c.False, rv)
-		}
-		if o != nil && !cc.Closed.IsFalse() {
-			panic(e.unsupported("select on a channel whose closed flag is symbolic at " + where))
+		for _, al := range alts {
+			if al.o == nil {
+				continue
+			}
+			cc := al.cc
+			has := c.Ne(cc.Count, c.BV(0, 32))
+			ready := c.And(al.g, c.Or(has, cc.Closed))
+			take := c.And(ready, c.Not(taken))
+			if take.IsFalse() {
+				continue
+			}
+			nc, v := e.chanPop(cc, c.And(take, has), recvT[ri])
+			st.Heap[al.o] = nc
+			rv[ri] = e.Merge(c.And(take, has), v, rv[ri])
+			okT = c.Ite(take, has, okT)
+			idx = c.Ite(take, c.BV(uint64(i), 64), idx)
+			taken = c.Or(taken, take)
 		}
 		ri++
 	}
-	if !x.Blocking {
-		return mk(c.BV(^uint64(0), 64), c.False, rv)
+	if x.Blocking {
+		e.fail(st, c.Not(taken), "noblock:select-would-block-forever", where)
 	}
-	e.fail(st, c.True, "noblock:select-would-block-forever", where)
-	return mk(c.BV(0, 64), c.False, rv)
+	return mk(idx, okT, rv)
 }
